@@ -507,5 +507,26 @@ def run(ck):
         ck.ob('FMT-reader-accumulate', gro.loc(st), flow.valid(cond) and 'width' in u(st),
               'GRO reader column counter advances for every field (`{}`)'.format(u(st)), key='FMT-reader-accumulate|read_gro')
     truncation_obligations(ck, ALL_FIELDS)
+    # the default helper: only None is replaced
+    gnn = pdb.func('get_not_none')
+    ck.analysed(pdb, gnn)
+    rets = stmts_with_env(gnn, lambda s_: isinstance(s_, ast.Return))
+    ok = len(rets) == 1 and u(rets[0][0].value) == 'value'
+    vd = stmts_with_env(gnn, lambda s_: isinstance(s_, ast.Assign) and u(s_.targets[0]) == 'value')
+    if ok:
+        first = [d for d in vd if u(d[0].value) == '{}.get({})'.format(gnn.args.args[0].arg, gnn.args.args[1].arg) and flow.valid(d[1])]
+        dflt = [d for d in vd if u(d[0].value) == gnn.args.args[2].arg]
+        ok = len(first) == 1 and len(dflt) == 1 and len(vd) == 2
+        if ok:
+            names = {}
+            for k in flow.atoms_of(dflt[0][1]):
+                if k[0] == 'Is' and 'None' in k[1:]:
+                    names[k] = 'ISNONE'
+            ok = flow.equivalent(flow.rename(dflt[0][1], names), flow.parse_formula('ISNONE'))[0] and len(names) == len(flow.atoms_of(dflt[0][1]))
+    ck.ob('DT-default', pdb.loc(gnn), ok, 'a written attribute is replaced by its default only when it is absent or None -- 0 and empty strings are written as they are', key='DT-default|get_not_none')
+    from . import shared
+    shared.truthy_zero(ck, [PDB, GRO, 'vermouth/truncating_formatter.py'])
+    shared.pure_writer(ck, pdb, wfn, [wfn.args.args[0].arg])
+    shared.pure_writer(ck, gro, gw, [gw.args.args[0].arg])
     ck.assume('PDB/GRO layouts are compared between the writer format strings and the reader column tables of the same tree; '
               'numeric precision of the round trip is not decided')
